@@ -55,6 +55,10 @@ def run(chk):
                         dist=lambda sc, o: {'where': 'task' if sc['ops'][0]['fail'].get('at') else 'init' if sc['ops'][0]['fail'].get('init') else 'exit',
                                             'exc': sc['ops'][0]['fail'].get('exc'), 'op': sc['ops'][0]['op'], 'start': sc['pool']['start_method']})
     proto_correspondence(chk, 'protocol traces of failing calls vs Mpire.Proto.step', scs, obs)
+    rs = [gen.gen_repeat_fail_scenario(rng) for _ in range(200 if chk.tier == 'quick' else 3000)]
+    run_scenarios(chk, 'several failing calls in a row on one pool: each raises its own error', rs, {'C04', 'C03'},
+                  nontrivial=lambda sc, o: len(o.get('raised') or []) >= 2,
+                  dist=lambda sc, o: {'where': 'task' if sc['ops'][0]['fail'].get('at') else 'init' if sc['ops'][0]['fail'].get('init') else 'exit', 'calls': len(sc['ops'])})
     chk.assumptions += ['pickle/dill verdicts are inputs of the model (measured by really serialising)', 'traceback formatting/highlighting is not modelled']
 
     def search():
